@@ -85,6 +85,7 @@ def universe(sp):
 
 
 HIST_A = "parameters(p=1.0, q=2)\nstates(a=1.0, b=2.0)\ni = p + q\nda_dt = p*a - i\ndb_dt = q - b*a\n"
+HIST_A2 = "parameters(p=1.0, q=2)\nstates(a=1.0, b=2.0)\ni = p - q\nda_dt = i - p*a\ndb_dt = q + b*a\n"  # same names, same dependency sets as HIST_A
 HIST_B = "parameters(k=0.5)\nstates(x=1.0)\nw = x/(exp(x) - 1)\ndx_dt = k - w\n"
 ALIASES = ["forward_euler", "forward_explicit_euler", "euler", "explicit_euler", "forward_generalized_rush_larsen", "generalized_rush_larsen", "forward_rush_larsen", "rush_larsen", "hybrid_rush_larsen"]
 
@@ -108,7 +109,7 @@ def shared_missing():
 
 
 def history_ops():
-    ops = ["loadA", "loadB", "pyA", "pyB", "cA", "jaxA", "failing-load", "remove-sing-B", "save-reload-A", "verbose-main", "sub-py-shared-options", "sub-c-shared-options", "matrices-B"]
+    ops = ["loadA", "loadB", "pyA", "pyB", "cA", "jaxA", "failing-load", "remove-sing-B", "save-reload-A", "verbose-main", "sub-py-shared-options", "sub-c-shared-options", "matrices-B", "loadA-variant", "pyA-variant", "matrices-A-variant"]
     ops += [f"pyA+{s}" for s in models.SCHEMES] + [f"cA+{s}" for s in models.SCHEMES] + ["pyA+all", "pyA+ru"]
     ops += [f"get_scheme:{a}" for a in ALIASES]
     return ops
@@ -136,6 +137,13 @@ def do_op(op):
             drive.py_code(A, missing_values=shared_missing(), scheme=["explicit_euler", "hybrid_rush_larsen"], stiff_states=SHARED["stiff"])
         else:
             drive.c_code(A, missing_values=shared_missing(), scheme=["hybrid_rush_larsen"], stiff_states=SHARED["stiff"])
+    elif op == "loadA-variant":
+        drive.load(HIST_A2)
+    elif op == "pyA-variant":
+        drive.py_code(drive.load(HIST_A2), scheme=list(models.SCHEMES), stiff_states=["a"])
+    elif op == "matrices-A-variant":
+        from gotranx import sympytools
+        sympytools.jacobi_matrix(drive.load(HIST_A2))
     elif op == "matrices-B":
         from gotranx import sympytools
         sympytools.jacobi_matrix(drive.load(HIST_B))
